@@ -38,6 +38,8 @@ def gen(rng, tier):
     npart = rng.choice([1, 2, 3, 4, 5, 8, 16, rng.randrange(1, 41)])
     box = rng.choice([1.0, 1.0, 8.0, 2000.0, 500.0, 123.456, 3.0])
     N = rng.choice([0, 1, 2, 3, 5, rng.randrange(0, 40), rng.randrange(0, 201)] + ([rng.randrange(200, 1500)] if tier == 'thorough' else []))
+    if rng.random() < 0.02:
+        N = rng.choice([4096, 8192, 5000, rng.randrange(3000, 12000)])      # sizes beyond any small-block threshold
     coord = rng.choice([0, 1, 2])
     pool = []
     for k in range(npart + 1):
